@@ -195,7 +195,10 @@ func e5Case(hseed uint64, pos int, kind, speed string, race bool) Case {
 			}
 			prev = w
 		}
-		closing := kind != "status" && kind != "bookmark" && kind != "unknown"
+		// kinds that only insert a frame leave the stream open on the server side: whether the
+		// library reconnects after such a frame or skips it is its own business (C04 only says
+		// such frames never stop the flow)
+		closing := kind != "status" && kind != "bookmark" && kind != "unknown" && kind != "nilobj"
 		if closing && reconnects == 0 && pos >= n {
 			r.Add("fault-after-history-end", 1)
 		} else if closing && reconnects == 0 {
